@@ -729,6 +729,30 @@ fn index_pairs(ts: proc_macro2::TokenStream, out: &mut Vec<(usize, usize)>) {
     }
 }
 
+/// Lengths N of every `[Box<str>; N]`, `[&str; N]`, `[&'static str; N]` array type in the generated code:
+/// these are the sizes the generated code expects string tables to have (at every subkey level and in
+/// every feature configuration).
+fn table_array_lens(ts: proc_macro2::TokenStream, out: &mut Vec<usize>) {
+    use proc_macro2::{Delimiter, TokenTree as T};
+    for t in ts {
+        if let T::Group(g) = t {
+            if g.delimiter() == Delimiter::Bracket {
+                let toks: Vec<T> = g.stream().into_iter().collect();
+                let text: String = toks.iter().map(|t| t.to_string()).collect::<Vec<_>>().join(" ");
+                let is_str_array = text.starts_with("Box < str > ;") || text.starts_with("& str ;") || text.starts_with("& 'static str ;");
+                if is_str_array {
+                    if let Some(T::Literal(l)) = toks.last() {
+                        if let Ok(n) = l.to_string().trim_end_matches("usize").parse::<usize>() {
+                            out.push(n);
+                        }
+                    }
+                }
+            }
+            table_array_lens(g.stream(), out);
+        }
+    }
+}
+
 pub fn run_write_case(scratch: &Scratch, project: &Project, case: &Value) -> Value {
     scratch.reset();
     let dir = scratch.case_dir();
@@ -927,6 +951,11 @@ pub fn run_write_case(scratch: &Scratch, project: &Project, case: &Value) -> Val
         if let Some(ts) = ts {
             match baked_tables(&ts) {
                 Err(e) => problems.push(format!("generated code: {e}")),
+                Ok(tables) if tables.is_empty() => {
+                    // this feature configuration bakes no tables (client-side dynamic loading) or the generated
+                    // code changed shape: nothing to compare table contents with
+                    baked = json!({"tables": 0});
+                }
                 Ok(tables) => {
                     let mut want: Vec<(String, usize, Vec<String>)> = vec![];
                     for u in &units {
@@ -960,6 +989,19 @@ pub fn run_write_case(scratch: &Scratch, project: &Project, case: &Value) -> Val
                     }
                     baked = json!({"tables": tables.len(), "index_reads": pairs.len()});
                 }
+            }
+            // sizes the generated code expects, in every configuration and at every subkey level
+            let lens: Vec<usize> = units.iter().flat_map(|u| u.locales.iter().map(|(_, _, c)| *c)).collect();
+            let mut arr = vec![];
+            table_array_lens(ts.clone(), &mut arr);
+            for n in &arr {
+                if !lens.contains(n) {
+                    problems.push(format!("generated code declares a string table type of {n} strings but no locale's table has that many (tables: {lens:?})"));
+                    break;
+                }
+            }
+            if let Some(b) = baked.as_object_mut() {
+                b.insert("table_types_checked".into(), json!(arr.len()));
             }
         } else {
             baked = rep;
